@@ -112,6 +112,8 @@ pub enum Workload {
     New { ty: String, name: String },
     /// Parse `input` under the all-succeed script, then `into_builder().build()` under the script.
     Rebuild { input: String },
+    /// `GenericPurl::<SimShape>::deserialize` of a string value holding `input` (serde entry point).
+    Deserialize { input: String },
 }
 
 #[derive(Clone, Debug, PartialEq, Eq, Serialize, Deserialize)]
@@ -194,6 +196,33 @@ pub enum SimError {
     Conv(u64),
     Hook(u64),
     Parse(ParseError),
+}
+
+impl std::fmt::Display for SimError {
+    fn fmt(&self, f: &mut std::fmt::Formatter<'_>) -> std::fmt::Result {
+        match self {
+            SimError::Conv(t) => write!(f, "Conv#{t}"),
+            SimError::Hook(t) => write!(f, "Hook#{t}"),
+            SimError::Parse(e) => write!(f, "Parse({e})"),
+        }
+    }
+}
+
+/// The serde entry point reports errors as text; map the text back (tokens are unique per run).
+fn error_from_text(text: &str) -> SimError {
+    let token_after = |tag: &str| -> Option<u64> {
+        let at = text.find(tag)? + tag.len();
+        let digits: String = text[at..].chars().take_while(char::is_ascii_digit).collect();
+        digits.parse().ok()
+    };
+    if let Some(t) = token_after("Conv#") {
+        SimError::Conv(t)
+    } else if let Some(t) = token_after("Hook#") {
+        SimError::Hook(t)
+    } else {
+        // Some generic error; which one is not C14's business.
+        SimError::Parse(ParseError::InvalidEscape)
+    }
 }
 
 impl From<ParseError> for SimError {
@@ -650,6 +679,17 @@ impl C14 {
                 ctx_owned = format!("script {n} {script:?}, GenericPurl::new({ty:?}, {name:?})");
                 (Kind::Build, "new", None, None, r)
             },
+            Workload::Deserialize { input } => {
+                let reference = guarded(|| GenericPurl::<String>::from_str(input))
+                    .map_err(|p| violation!("C14.panic_in_parse", "parsing {input:?} with the String shape panicked: {p}"))?;
+                install(script, token_base);
+                let value = serde_json::Value::String(input.clone());
+                let r = guarded(|| serde_json::from_value::<GenericPurl<SimShape>>(value))
+                    .map_err(|p| violation!("C14.panic_in_parse", "script {n} {script:?}: deserialising {input:?} panicked: {p}"))?
+                    .map_err(|e| error_from_text(&e.to_string()));
+                ctx_owned = format!("script {n} {script:?}, deserialize {input:?}");
+                (Kind::Parse, if reference.is_ok() { "deserialize_valid" } else { "deserialize_refused_by_generic" }, Some(input.as_str()), Some(reference.is_ok()), r)
+            },
             Workload::Rebuild { input } => {
                 install(&BENIGN, token_base);
                 let first = guarded(|| GenericPurl::<SimShape>::from_str(input))
@@ -708,6 +748,7 @@ impl C14 {
             "parse_refused_by_generic" => stats.bump("workload.parse_refused_by_generic"),
             "build" => stats.bump("workload.build"),
             "new" => stats.bump("workload.new"),
+            "deserialize_valid" | "deserialize_refused_by_generic" => stats.bump("workload.deserialize"),
             _ => stats.bump("workload.rebuild"),
         }
         stats.bump("scripted_executions");
@@ -769,7 +810,8 @@ impl Sim for C14 {
 
     fn generate(&self, seed: u64) -> Scenario {
         let mut rng = Rng::new(seed);
-        let workload = match rng.below(10) {
+        let workload = match rng.below(11) {
+            10 => Workload::Deserialize { input: gen::any_input(&mut rng, false) },
             0..=5 => Workload::Parse { input: gen::any_input(&mut rng, false) },
             6..=7 => Workload::Build {
                 ty: gen::type_string(&mut rng, false).to_ascii_lowercase(),
@@ -852,9 +894,15 @@ impl Sim for C14 {
         }
         // Simpler workloads.
         match &sc.workload {
-            Workload::Parse { input } | Workload::Rebuild { input } => {
-                let rebuild = matches!(sc.workload, Workload::Rebuild { .. });
-                let mk = |s: String| if rebuild { Workload::Rebuild { input: s } } else { Workload::Parse { input: s } };
+            Workload::Parse { input } | Workload::Rebuild { input } | Workload::Deserialize { input } => {
+                let mk = |s: String| match sc.workload {
+                    Workload::Rebuild { .. } => Workload::Rebuild { input: s },
+                    Workload::Deserialize { .. } => Workload::Deserialize { input: s },
+                    _ => Workload::Parse { input: s },
+                };
+                if matches!(sc.workload, Workload::Deserialize { .. }) {
+                    out.push(Scenario { workload: Workload::Parse { input: input.clone() }, scripts: sc.scripts.clone() });
+                }
                 let chars: Vec<char> = input.chars().collect();
                 // Cut the tail at separators, then drop single characters.
                 for sep in ['#', '?', '@'] {
@@ -934,7 +982,7 @@ impl Sim for C14 {
                 unmet.push(format!("{k} stuck at zero"));
             }
         }
-        for k in ["workload.parse_valid", "workload.parse_refused_by_generic", "workload.build", "workload.new", "workload.rebuild"] {
+        for k in ["workload.parse_valid", "workload.parse_refused_by_generic", "workload.build", "workload.new", "workload.rebuild", "workload.deserialize"] {
             if stats.get(k) == 0 {
                 unmet.push(format!("{k} stuck at zero"));
             }
